@@ -47,6 +47,20 @@ INVALID_TEXTS = [
     ("two base classes", "class A : B, C { };"),
     ("argument without a name", "void f(int);"),
     ("default without a value", "void f(int a = );"),
+    ("template header on an operator", "class A { template<T = {double}> A operator+(const A& o) const; };"),
+    ("template header on a unary operator", "class A { template<T> A operator-() const; };"),
+    ("template header on a dunder method", "class A { template<T> __len__(); };"),
+    ("template header on a property", "class A { template<T> double p; };"),
+    ("template header on an enum", "template<T> enum E { X };"),
+    ("template header on a class-scoped enum", "class A { template<T> enum E { X }; };"),
+    ("template header on a variable", "template<T> const double k = 3;"),
+    ("template header on a typedef", "template<T> class B { }; template<T> typedef B<int> BI;"),
+    ("template header on a namespace", "template<T> namespace n { }"),
+    ("template header on a forward declaration", "template<T> class F;"),
+    ("template header on an include", "template<T> #include <a.h>"),
+    ("two template headers", "template<T> template<U> class A { };"),
+    ("virtual on a function", "virtual double f();"),
+    ("const on a property", "class A { double p const; };"),
 ]
 NI = len(INVALID_TEXTS)
 
